@@ -74,6 +74,7 @@ class Ace(AceBase):
         if dstaddr := kwargs.get("dstaddr") or {}:
             self._dstaddr = Address(**dstaddr)
         self.line = line
+        self._init_subobjects_uuid_note(**kwargs)
 
     # ========================== redefined ===========================
 
@@ -500,6 +501,21 @@ class Ace(AceBase):
         return aces
 
     # =========================== helper =============================
+
+    def _init_subobjects_uuid_note(self, **kwargs) -> None:
+        """Restore uuid and note of protocol, addresses, ports, option from exported data.
+
+        self.line setter creates these objects from the text, where uuid and note are absent.
+        """
+        for name in ("protocol", "srcaddr", "srcport", "dstaddr", "dstport", "option"):
+            data = kwargs.get(name)
+            if not isinstance(data, dict):
+                continue
+            obj = getattr(self, f"_{name}")
+            if uuid := data.get("uuid"):
+                obj.uuid = str(uuid)
+            if data.get("note") is not None:
+                obj.note = data["note"]
 
     @staticmethod
     def _check_parsed_elements(line: str, data: DStr) -> bool:
